@@ -45,7 +45,7 @@ def zstyle(rng, maxw=12):
     return J('S', rng.randrange(2), rng.randrange(2), w, rng.randrange(3))
 
 
-def zoo_case(rng, fam=None, c=lambda rng: rng.randrange(-30, 31), e=lambda rng: rng.choice([0, 1, 2, 3]) if rng.random() < 0.25 else rng.randrange(0, 32), maxw=12, ang=None, absolute=False):
+def zoo_case(rng, fam=None, c=lambda rng: rng.randrange(-30, 31), e=lambda rng: rng.choice([0, 1, 2, 3]) if rng.random() < 0.25 else rng.randrange(0, 32), maxw=12, ang=None, absolute=False, dotted=False):
     """one zoo case line (without suite name); c = coordinate sampler, e = extent sampler"""
     fam = fam or rng.choice(FAMILIES)
     ang = ang or (lambda rng: rng.choice([0, 30, 45, 90, 180, 270, 360, -90, -360, 400, -720]) if rng.random() < 0.4 else rng.randrange(-400, 401))
@@ -92,4 +92,8 @@ def zoo_case(rng, fam=None, c=lambda rng: rng.randrange(-30, 31), e=lambda rng: 
         return J('text', c(rng), c(rng), rng.randrange(8), rng.randrange(3), rng.randrange(4), lhk, lhv, rng.randrange(16), rng.randrange(12))
     else:
         raise ValueError(fam)
-    return fam + ' ' + g + ' ' + zstyle(rng, maxw)
+    st = zstyle(rng, maxw)
+    # the dotted stroke style exists for rectangles only; C01 (solid strokes by its statement) never asks for it
+    if dotted and fam == 'rect' and rng.random() < 0.35:
+        st += ' 1'
+    return fam + ' ' + g + ' ' + st
